@@ -287,13 +287,15 @@ def shrink_schedule(case):
             yield c
 
 
-TIERS = {"quick": {"runs": 800, "wall_cap": 480}, "thorough": {"runs": 25000, "wall_cap": 3300}}
-RULE = ("one run = one generated world (1..4 platforms, several commands per platform on overlapping files with different "
-        "-D sets, shared headers that define/undefine/test macros, re-inclusion-sensitive once/guarded headers, optionally a "
-        "user .cbi/config with store_split / extend_match / append_const options, modes and passes) executed under 5 history "
-        "shapes: composed; every command alone in a pristine interpreter; a scheduler-chosen partition; permuted platform and "
-        "command order; -p subset (API and codebasin front end); successive analyses sharing one interpreter vs fresh; "
-        "non-trivial = at least two compile commands; distinct = distinct sha256(world, schedule)")
+TIERS = {"quick": {"runs": 1200, "wall_cap": 480}, "thorough": {"runs": 25000, "wall_cap": 3300}}
+RULE = ("one run = one generated world (1..4 platforms, several commands per platform on overlapping files, per-command or uniform "
+        "flag sets, shared headers that define/undefine/test macros, re-inclusion-sensitive once/guarded headers, function-like / "
+        "self-referential / pasting / variadic macro snippets, optionally a user .cbi/config with store_split / extend_match / "
+        "append_const options, modes and passes, built-in multi-pass flags, platforms sharing one database, C/C++/Fortran units) "
+        "executed under these history shapes: composed; every command alone (all in sequence in one interpreter, and a scheduler-chosen "
+        "sample of three each in a pristine interpreter); a scheduler-chosen partition; permuted platform and command order; -p subset "
+        "(API, codebasin front end, and '-p S' against an analysis file holding only S for codebasin and cbi-tree); successive analyses "
+        "sharing one interpreter vs fresh; non-trivial = at least two compile commands; distinct = distinct sha256(world, schedule)")
 ASSUMPTIONS = [
     "metamorphic: CBI is compared with CBI; a 'fresh' baseline is a fork of an interpreter that imported codebasin but never executed it",
     "only per-line attribution, database entries and the summary table are compared, never warnings or log text",
